@@ -38,6 +38,13 @@ def cases(tier):
         for first in LEVELS:  # level of the first fitting unit: splits the enumeration into parallel parts
             out.append(dict(name="fe_A_%s_first_%s" % ("all" if sel == "all" else ("list" if sel == "list" else "+".join(sel)), first),
                             kind="featurizer", sel=sel, first=first, n_fit=3, n_hold=2, second_fe=False, states=False, weight=10))
+    # the unit outside the fitting / held-out rows is a REPORTING unit set aside as non-modelled (or a reporting unexpected unit), with
+    # any level: it must not make a level "observed"
+    for first in LEVELS:
+        for cat in ("non-modeled: strange turnout factor", "unexpected"):
+            out.append(dict(name="fe_A_all_first_%s_extra_reporting_%s" % (first, cat.split(":")[0].replace("-", "")), kind="featurizer",
+                            sel="all", first=first, n_fit=3, n_hold=2, second_fe=False, states=False, extra_cat=cat, extra_reporting=1,
+                            weight=10))
     out.append(dict(name="two_fe", kind="featurizer", sel="all", first=None, n_fit=3, n_hold=2, second_fe=True, states=False, weight=60))
     for sep in ([], ["AA"], ["BB"], ["AA", "BB"]):
         out.append(dict(name="separate_states_%s" % ("+".join(sep) or "none"), kind="states", sep=sep, weight=5))
@@ -116,8 +123,8 @@ def make_units(ctx, case, n_fit, n_hold, n_unexp=1):
     bnm = [ctx.real("bnm_%d" % i, -1, 1) for i in range(n)]
     df = pd.DataFrame({
         "postal_code": ["AA"] * n, "geographic_unit_fips": ["u%d" % i for i in range(n)],
-        "reporting": [1] * n_fit + [0] * (n - n_fit),
-        "unit_category": ["expected"] * (n_fit + n_hold) + ["unexpected"] * n_unexp,
+        "reporting": [1] * n_fit + [0] * n_hold + [case.get("extra_reporting", 0)] * n_unexp,
+        "unit_category": ["expected"] * (n_fit + n_hold) + [case.get("extra_cat", "unexpected")] * n_unexp,
         "A": lv, "f1": col(f1), "baseline_normalized_margin": col(bnm)})
     if lv2:
         df["B"] = lv2
